@@ -160,6 +160,10 @@ def run_case(ctx, rep, case, base_dir, model_ok):
                 lockstate = {"owner": None, "stale": set()}
 
                 def s3hook(phase, op, key, kw):
+                    if phase == "before" and op == "get" and key.endswith(".locks/metadata.lock") and case.get("lock_get_fault_actor") == S.actor() \
+                            and lockstate["owner"] not in (S.actor(), None):
+                        # once its lock has been taken over, every read of the lock object by this committer fails transiently
+                        raise fakes3.client_error("SlowDown", "GetObject")
                     if phase != "after" or not key.endswith(".locks/metadata.lock"):
                         return
                     a = S.actor()
@@ -192,7 +196,9 @@ def run_case(ctx, rep, case, base_dir, model_ok):
 
                             def w_(p_, *a_, _o=o_, _ai=ai, **k_):
                                 r_ = _o(p_, *a_, **k_)
-                                if str(p_).lstrip("/") == "metadata.version-hint.text" and _ai in lockstate["stale"]:
+                                if str(p_).lstrip("/") == "metadata.version-hint.text" and (_ai in lockstate["stale"] or (
+                                        case.get("strict_fence") and lockstate["owner"] not in (_ai, None))):
+                                    # strict_fence: schedules in which the takeover is complete BEFORE this committer resumes at its fence
                                     lost_then_flipped.append(_ai)
                                 return r_
                             setattr(st_, mth, w_)
@@ -251,7 +257,7 @@ def run_case(ctx, rep, case, base_dir, model_ok):
             final_snaps = {s["id"] for s in v["snaps"]}
             problems = []
             for ai in lost_then_flipped:
-                problems.append(f"lost-lock: actor {ai} saw the lock object owned by another committer while believing it held the lock, and went on to flip the pointer")
+                problems.append(f"lost-lock: actor {ai} flipped the pointer although its lock had been taken over by another committer before its fencing check")
             for ai, sp in specs.items():
                 ok = acks[ai]
                 if sp["kind"] == "append":
